@@ -157,3 +157,11 @@ Proof. exact TaskProtoProps.cancel_before_start. Qed.
 
 Example reachable_suspended_example : exists s, reachable s /\ phase_of s = Suspended /\ result s = None.
 Proof. exact TaskProtoProps.reachable_suspended. Qed.
+
+(** (A) the tie to /repo's current source: every function this property's models were transcribed from has, in the
+    tree this run is checking, the normalised source it had when the models were validated (hashes regenerated from
+    /repo into gen/Generated.v on every run; pins in gen/SourcePins.v).  A change to one of them invalidates the
+    transcription until it is re-validated. *)
+From UsimGen Require SourcePins Pin_C06.
+Theorem C06_modelled_source_unchanged : forallb SourcePins.pin_ok Pin_C06.pins = true.
+Proof. exact Pin_C06.src_unchanged. Qed.
